@@ -313,6 +313,87 @@ def one_case(ctx, k):
         shutil.rmtree(d, ignore_errors=True)
 
 
+def cut_order_case(ctx, k):
+    """-u/-U values are applied in the order given: observed through what --rename reports as {cut_prefix}/{cut_suffix}
+    (the sequence alone cannot tell the order of a 5' and a 3' cut apart unless the read is shorter than both together)."""
+    rng = ctx.rng("c10cut", k)
+    paired = rng.random() < 0.5
+
+    def cuts():
+        a = rng.choice([1, 2, 3, 5, 7])
+        b = rng.choice([1, 2, 3, 4, 6])
+        r = rng.random()
+        if r < 0.4:
+            return [-b, a]
+        if r < 0.8:
+            return [a, -b]
+        return [rng.choice([a, -b])]
+
+    c1 = cuts()
+    c2 = cuts() if paired and rng.random() < 0.8 else []
+    n = rng.randint(10, 25)
+    recs1 = [(f"r{i} c{i}", G.rnd(rng, rng.randint(0, 12)), None) for i in range(n)]
+    recs1 = [(h, s_, "".join(chr(33 + rng.randint(5, 40)) for _ in s_)) for h, s_, _ in recs1]
+    recs2 = None
+    if paired:
+        recs2 = [(f"r{i} d{i}", G.rnd(rng, rng.randint(0, 12)), None) for i in range(n)]
+        recs2 = [(h, s_, "".join(chr(33 + rng.randint(5, 40)) for _ in s_)) for h, s_, _ in recs2]
+    tmpl = "{id} p={cut_prefix} s={cut_suffix}" if not paired else "{id} p={r1.cut_prefix} s={r1.cut_suffix} P={r2.cut_prefix} S={r2.cut_suffix} own={cut_prefix}"
+    d = os.path.join(ctx.scratch, f"u{k}")
+    os.makedirs(d, exist_ok=True)
+    try:
+        inputs = climon.write_inputs(d, recs1, recs2)
+        opts = [x for c in c1 for x in ("-u", str(c))] + [x for c in c2 for x in ("-U", str(c))]
+        groups = [[x for c in c1 for x in ("-u", str(c))], [x for c in c2 for x in ("-U", str(c))], ["--rename", tmpl]]
+        rng.shuffle(groups)
+        argv = [x for g in groups for x in g] + ["-o", "o1.fq"] + (["-p", "o2.fq"] if paired else []) + inputs
+        case = climon.case_record(argv, d, inputs)
+        case["k"] = k
+        case["cut_order"] = True
+        run = climon.run(d, argv, tag="cut", trace=False)
+        ctx.count("cut_order_runs")
+        if run.rc != 0:
+            ctx.count("cut_order_runs_failed")
+            ctx.extra.setdefault("cut_failed_example", (argv, run.err[-300:]))
+            ctx.case(None)
+            return
+
+        def apply(seq, cs):
+            pre = suf = ""
+            for c in cs:
+                if c > 0:
+                    pre, seq = seq[:c], seq[c:]
+                else:
+                    suf, seq = seq[c:], seq[:c]
+            return seq, pre, suf
+
+        got1 = fastx.parse_fastq(read_file(d, "o1.fq") or "", strict=False)
+        got2 = fastx.parse_fastq(read_file(d, "o2.fq") or "", strict=False) if paired else None
+        discriminating = False
+        bad = None
+        for i in range(n):
+            s1, p1, f1 = apply(recs1[i][1], c1)
+            if len(c1) == 2 and len(recs1[i][1]) < abs(c1[0]) + abs(c1[1]):
+                discriminating = True
+            if paired:
+                s2, p2, f2 = apply(recs2[i][1], c2)
+                if len(c2) == 2 and len(recs2[i][1]) < abs(c2[0]) + abs(c2[1]):
+                    discriminating = True
+                e1 = (f"r{i} p={p1} s={f1} P={p2} S={f2} own={p1}", s1)
+                e2 = (f"r{i} p={p1} s={f1} P={p2} S={f2} own={p2}", s2)
+            else:
+                e1 = (f"r{i} p={p1} s={f1}", s1)
+            if i >= len(got1) or (got1[i][0], got1[i][1]) != e1:
+                bad = bad or f"record {i} of R1: expected {e1}, got {got1[i][:2] if i < len(got1) else None}"
+            if paired and (i >= len(got2) or (got2[i][0], got2[i][1]) != e2):
+                bad = bad or f"record {i} of R2: expected {e2}, got {got2[i][:2] if i < len(got2) else None}"
+        ctx.case((str(opts), str(recs1[:3])) if discriminating else None)
+        if bad:
+            ctx.violation("cut-order", f"-u/-U not applied in the order given ({opts}, paired={paired}): {bad}", case, klass="cut-order")
+    finally:
+        shutil.rmtree(d, ignore_errors=True)
+
+
 def run_shard(ctx):
     climon.require_hooks(ctx)
     for k in range(ctx.scale(45, 1200)):
@@ -320,6 +401,8 @@ def run_shard(ctx):
             ctx.count("stopped_on_time_budget")
             break
         one_case(ctx, ctx.shard * 100000 + k)
+        if k % 3 == 0:
+            cut_order_case(ctx, ctx.shard * 100000 + k)
 
 
 def verdict_hook(merged, tier):
@@ -334,4 +417,7 @@ def verdict_hook(merged, tier):
 
 def replay(ctx, case):
     ctx.shard = case["k"] // 100000
-    one_case(ctx, case["k"])
+    if case.get("cut_order"):
+        cut_order_case(ctx, case["k"])
+    else:
+        one_case(ctx, case["k"])
